@@ -34,8 +34,9 @@ def run(chk):
     r2(chk, prog)
     r3(chk, prog)
     r4(chk, prog, f)
+    r6(chk, prog, f)
     chk.undecided_clauses += [
-        "numeric conversion (strtod / strtoll results, int64/uint64 classification, saturation)",
+        "the numeric conversions themselves (strtod / strtoll / strtoull are trusted; R6 decides only that their results reach the node unmodified)",
         "UTF-8 bit arithmetic of the \\\\u decoder (only the branch structure and byte counts are decided)",
         "literal matching (strncmp on the token text) and number token syntax: tokens are opaque to the automaton",
         "equality of whole parsed documents with an independent parser's result",
@@ -289,3 +290,134 @@ def r5(chk, prog, f):
         chk.refuted(rid, f.name, "state dispatch", best.locstr(), "parser states without a case: %s (the parser would skip input in them)" % missing)
     else:
         chk.proven(rid, f.name, "state dispatch", best.locstr(), "%d states, all dispatched" % len(states))
+
+
+# ---------------------------------------------------------------------------
+# R6 a number token's value is the library conversion's result, unmodified
+CONVERSIONS = ("strtod", "strtoll", "strtoull", "strtol", "strtoul")
+NUM_CTORS = {"json_object_new_double_s": 0, "json_object_new_double": 0, "json_object_new_int64": 0, "json_object_new_uint64": 0}
+
+
+def _copy_source(f, v, depth=0):
+    """follow value-preserving copies (casts between same-width integers, sext/zext/trunc are NOT copies of the value in general,
+    but int64 <-> uint64 reinterpretation is a no-op at IR level) back to the defining instruction"""
+    while v.kind == "reg" and depth < 8:
+        d = f.defs.get(v.v)
+        if d is None:
+            return None
+        if d.op == "bitcast":
+            v = d.ops[0]
+            depth += 1
+            continue
+        return d
+    return None
+
+
+def _const_tree(f, v, depth=0):
+    """the value is selected / converted from constants only (control may depend on anything)"""
+    if v.kind != "reg":
+        return True
+    d = f.defs.get(v.v)
+    if d is None or depth > 6:
+        return False
+    if d.op in ("fpext", "fptrunc", "fneg", "bitcast", "sext", "zext", "trunc"):
+        return _const_tree(f, d.ops[0], depth + 1)
+    if d.op == "select":
+        return _const_tree(f, d.ops[1], depth + 1) and _const_tree(f, d.ops[2], depth + 1)
+    if d.op == "phi":
+        return all(_const_tree(f, val, depth + 1) for val, _ in d.x["incoming"])
+    return False
+
+
+def _out_param_writers(prog, g, k, seen=None):
+    """stores through parameter k of g: list of (store instr, defining instr of the stored value)"""
+    out = []
+    pname = g.params[k][1]
+    for i in g.instrs():
+        if i.op == "store" and i.ops[1].kind == "reg" and i.ops[1].v == pname:
+            out.append((i, _copy_source(g, i.ops[0])))
+    return out
+
+
+def r6(chk, prog, f):
+    rid = "C01.R6"
+    chk.rule(rid, "the number handed to a node constructor for a number token is the result of the C library conversion (strtod / strtoll / "
+                  "strtoull) of the token text, carried only by copies: the helper stores the conversion's own result through its "
+                  "out-parameter, and the tokener passes the slot's content on unchanged (saturation and rounding are the library's)")
+    n = 0
+    slots = {}
+    for i in f.instrs():
+        if i.op == "alloca":
+            slots[i.res] = i
+    sinks = [i for i in f.instrs() if i.op == "call" and i.callee in NUM_CTORS]
+    for c in sinks:
+        a = c.ops[NUM_CTORS[c.callee]]
+        d = _copy_source(f, a)
+        if _const_tree(f, a):
+            continue          # built from constants only (the NaN / Infinity literals), not a number token
+        n += 1
+        sig = "%s(%s)" % (c.callee, a.v if a.kind == "reg" else a.kind)
+        chain = []
+        ok = None
+        why = ""
+        hops = 0
+        while hops < 6:
+            hops += 1
+            if d is None:
+                ok, why = False, "the value is not a plain copy of a converted number"
+                break
+            if d.op == "load" and d.ops[0].kind == "reg" and d.ops[0].v in slots:
+                slot = d.ops[0].v
+                chain.append("slot %" + slot)
+                stores = [s for s in f.instrs() if s.op == "store" and s.ops[1].kind == "reg" and s.ops[1].v == slot]
+                writers = [x for x in f.instrs() if x.op == "call" and any(o.kind == "reg" and o.v == slot for o in x.ops)
+                           and not (x.callee or "").startswith("llvm.")]
+                bad_store = None
+                nxt = None
+                for s in stores:
+                    sd = _copy_source(f, s.ops[0])
+                    if sd is not None and sd.op == "load" and sd.ops[0].kind == "reg" and sd.ops[0].v in slots:
+                        nxt = sd          # num64 = numuint64 : follow the copied slot
+                    else:
+                        bad_store = s
+                if bad_store is not None:
+                    ok, why = False, "the slot is also written at %s with a value that is not a conversion result" % bad_store.locstr()
+                    break
+                for w in writers:
+                    g = prog.resolve(w.callee, f.module) if w.callee else None
+                    if g is None or g.is_decl:
+                        ok, why = False, "the slot is filled by %s whose body is not available" % (w.callee or "an indirect call")
+                        break
+                    k = [j for j, o in enumerate(w.ops) if o.kind == "reg" and o.v == slot][0]
+                    chk.touched(g)
+                    for st, src in _out_param_writers(prog, g, k):
+                        if src is None or src.op != "call" or src.callee not in CONVERSIONS:
+                            ok, why = False, ("%s stores a value through its out-parameter at %s that is not the direct result of a "
+                                              "library conversion (it is produced by %s)" % (g.name, st.locstr(), src.op if src is not None else "a constant or parameter"))
+                            break
+                        chain.append("%s: %s result" % (g.name, src.callee))
+                    if ok is False:
+                        break
+                if ok is False:
+                    break
+                if nxt is not None and not writers:
+                    d = nxt
+                    continue
+                if not writers and not stores:
+                    ok, why = False, "the slot is never written"
+                    break
+                ok = True
+                break
+            if d.op == "call" and d.callee in CONVERSIONS:
+                chain.append("%s result" % d.callee)
+                ok = True
+                break
+            ok, why = False, "the value is produced by %s, not by a copy of a converted number" % d.op
+            break
+        if ok:
+            chk.proven(rid, f.name, sig, c.locstr(), "; ".join(chain))
+        elif ok is False:
+            chk.refuted(rid, f.name, sig, c.locstr(), "number token value: %s" % why, {"chain": chain})
+        else:
+            chk.undecided(rid, f.name, sig, c.locstr(), "copy chain too long")
+    chk.floor(rid, n, 4, "numeric node constructions in the tokener")
